@@ -498,6 +498,33 @@ def _finish_fn(d, log, sig, body, src_start, src_end, sha, dropped_attrs, emitte
         body = body2
     if d.opts.get('letchains'):
         body = unfold_let_chains(body, log, d.qual)
+    if d.opts.get('bindtail'):
+        # rule A4': the tail expression E of the body becomes `let <name> = E;` ... `<name>` so that exit obligations
+        # (`//@atend`) can mention the result and the locals still in scope
+        nm = d.opts['bindtail']
+        toks = rustlex.lex(body)
+        o = next(i for i, t in enumerate(toks) if t.kind == 'punct' and t.text == '{')
+        c = toks[o].match
+        last_semi = None
+        i = o + 1
+        while i < c:
+            t = toks[i]
+            if t.kind == 'punct' and t.text in '([{':
+                # a block-like statement (`if`, `match`, `loop` ...) without `;` also ends a statement, but only the
+                # LAST expression matters: remember position after a brace group that is followed by more code
+                i = t.match + 1
+                continue
+            if t.kind == 'punct' and t.text == ';':
+                last_semi = i
+            i += 1
+        if last_semi is None:
+            raise LostAnchor(f'{d.qual}: bindtail needs at least one statement before the tail expression')
+        start = toks[last_semi].end
+        tail = body[start:toks[c].start]
+        if not tail.strip():
+            raise LostAnchor(f'{d.qual}: bindtail: the body has no tail expression')
+        body = body[:start] + f'\nlet {nm} = ' + tail.strip() + ';\n' + f'/*@tail@*/ {nm}\n' + body[toks[c].start:]
+        log.append(dict(rule="A4'", fn=d.qual, what=f'tail expression bound to `{nm}`'))
     if d.opts.get('mutself'):
         # rule R20: Verus does not support a `mut self` receiver.  Alpha-renaming: the parameter becomes `self`,
         # the body starts with `let mut this_ = self;` and every `self` token of the body becomes `this_`.
@@ -525,7 +552,8 @@ def _finish_fn(d, log, sig, body, src_start, src_end, sha, dropped_attrs, emitte
     # line inserts
     for (where, k, pattern, lines) in d.ins:
         if where == 'atend':
-            inserts.append((body.rindex('}'), '\n'.join(lines) + '\n'))
+            pos_t = body.rfind('/*@tail@*/')
+            inserts.append((pos_t if pos_t >= 0 else body.rindex('}'), '\n'.join(lines) + '\n'))
             continue
         pos = -1
         start = 0
